@@ -9,6 +9,10 @@ import GdcVerif.Gen.Facts
   fact-fields <encoder|decoder>            → ok <f1,f2,…>
   fact-field <obj> <field> <changed> <sensitive>
         → ok | inconsistent <class>   (changed ⇒ the field is written; sensitive ⇒ config or leaky)
+  fact-field-stationary <obj> <field> <changed>   → ok | inconsistent memo-not-stationary
+        (a leaky field changed on a call after the first one)
+  fact-codec-params-changed <type> <0|1>   → ok | inconsistent      (a shared parameters object changed during the
+        workload ⇒ a non-Validate store through `parameters` is listed for that codec type)
   fact-pkgvars <package>                   → ok <v1,v2,…>           (library package-level variables)
   fact-pkgvar-changed <package.var> <0|1>  → ok | inconsistent      (changed ⇒ a run-time store is listed)
   fact-codec-changed <type> <0|1>          → ok | inconsistent      (changed ⇒ a receiver store is listed)
@@ -32,6 +36,11 @@ def fields (obj : String) : List String :=
   if obj = "encoder" then Gen.Facts.encoderFields.map (·.1)
   else if obj = "decoder" then Gen.Facts.decoderFields.map (·.1) else []
 
+/-- fields that are leaky only through a nil guard with a bare return (C10.decoder_leaky_fields_when_nil_guards_dead):
+    if the guard is dead they are killed before read, so a perturbation must never reach the output -/
+def guardOnlyLeaky (obj : String) : List String :=
+  if obj = "decoder" then ["roiShifts", "roiSrgn"] else []
+
 def parseKV (s : String) : Option (List (String × Int)) :=
   if s = "-" then some [] else
   (s.splitOn ",").mapM (fun kv => match kv.splitOn "=" with
@@ -52,8 +61,18 @@ def step? : List String → Option String
     | none => "inconsistent unknown-field"
     | some cls =>
       let okCh := ch = "0" || cls != "config"
-      let okSe := se = "0" || cls = "config" || cls = "leaky"
+      let okSe := se = "0" || cls = "config" || (cls = "leaky" && !(guardOnlyLeaky obj).contains f)
       if okCh && okSe then "ok" else "inconsistent " ++ cls
+  | ["fact-field-stationary", obj, f, ch] =>
+    -- the memo contract behind encoder_run_eq_map_given_stationary_memo / decoder_run_eq_map: a leaky field
+    -- must not change any more on the calls after the first one
+    some <| match (classes obj).lookup f with
+    | none => "inconsistent unknown-field"
+    | some cls => if ch = "0" || cls != "leaky" || (guardOnlyLeaky obj).contains f then "ok" else "inconsistent memo-not-stationary"
+  | ["fact-codec-params-changed", ty, ch] =>
+    some <| if !Gen.Facts.codecTypes.contains ty then "inconsistent unknown-type"
+      else if ch = "0" || Gen.Facts.codecParameterStores.any (fun s => s.1 = ty && s.2.2 != "Validate") then "ok"
+      else "inconsistent"
   | ["fact-pkgvars", pkg] =>
     some ("ok " ++ ",".intercalate ((Gen.Facts.pkgVars.filter (fun v => v.1 = pkg && v.2.2.2 && v.2.1 != "_")).map (·.2.1)))
   | ["fact-pkgvar-changed", v, ch] =>
